@@ -184,6 +184,8 @@ int SimulateMsp430::run(int max_cycles, int step)
 
   printf("Running... Press Ctl-C to break.\n");
 
+  stop_running = false;
+
   while (stop_running == false)
   {
     pc = reg[0];
